@@ -133,7 +133,7 @@ Definition check_C08 (c : case) : bool :=
   match c with
   | CHist r steps => forallb (fun s => step_ok r (fst s) (snd s)) steps
   | CCodec ents decoded dpacks => same_multiset ents decoded && same_nset dpacks (map e_pack ents)
-  | CReject f crashed errored => negb crashed && (file_fits f || errored)
+  | CReject f crashed errored => negb crashed && Bool.eqb errored (negb (file_fits f))
   end.
 
 Fixpoint model_steps (r : repo) (mi : index) (steps : list (list N * obs)) : bool :=
@@ -147,7 +147,7 @@ Fixpoint model_steps (r : repo) (mi : index) (steps : list (list N * obs)) : boo
   end.
 
 (* 0 ok; 1 model <> implementation; 2 loaded index differs from the union of the index files present
-   (or incremental <> fresh, or Lookup/LookupSize disagree with the entries); 3 encode/decode loses entries; 4 the CLI crashed (panic) on, or silently accepted, an index file with an oversized value *)
+   (or incremental <> fresh, or Lookup/LookupSize disagree with the entries); 3 encode/decode loses entries; 4 the CLI crashed (panic) on, silently accepted an index file with an oversized value, or refused one within the limits *)
 Definition check_case (c : case) : nat :=
   if check_C08 c then
     match c with
